@@ -112,7 +112,7 @@ func appendFieldList(dst []byte, kvList []interface{}, stack bool) []byte {
 				}
 
 				if i < (len(val) - 1) {
-					enc.AppendArrayDelim(dst)
+					dst = enc.AppendArrayDelim(dst)
 				}
 			}
 			dst = enc.AppendArrayEnd(dst)
